@@ -102,6 +102,7 @@ type vsWorld struct {
 	s       *Store
 	sets    map[string]vsSet
 	expired map[string]bool
+	last    map[string]BundleItem // the record of each id as a caller last read it
 }
 
 func (w *vsWorld) bundle(id, part string) bpv7.Bundle {
@@ -336,7 +337,7 @@ func vsReplay(idx int, ids []string, expiredIds []string, hist []vsStep) (status
 	_ = os.RemoveAll(dir)
 	defer os.RemoveAll(dir)
 	base := time.Now()
-	w := &vsWorld{tag: tag, dir: dir, sets: map[string]vsSet{}, expired: map[string]bool{}}
+	w := &vsWorld{tag: tag, dir: dir, sets: map[string]vsSet{}, expired: map[string]bool{}, last: map[string]BundleItem{}}
 	for _, e := range expiredIds {
 		w.expired[e] = true
 	}
@@ -367,6 +368,9 @@ func vsReplay(idx int, ids []string, expiredIds []string, hist []vsStep) (status
 		switch s.Op {
 		case "push":
 			opErr = w.s.Push(w.bundle(s.Id, s.Part))
+			if bi, err := w.s.QueryId(w.sets[s.Id].whole.ID()); err == nil {
+				w.last[s.Id] = bi
+			}
 		case "pushboth":
 			key := w.sets[s.Id].whole.ID().Scrub().String()
 			gate := &vsGate{release: make(chan struct{})}
@@ -393,9 +397,15 @@ func vsReplay(idx int, ids []string, expiredIds []string, hist []vsStep) (status
 			}
 		case "update":
 			bi, err := w.s.QueryId(w.sets[s.Id].whole.ID())
+			stale := false
 			if err != nil {
-				opErr = err
-				break
+				// the record is gone: a caller that read it earlier and writes its copy back now (read-modify-write of the routing
+				// code racing with a delete or the cleaner) must not bring it back; an error is the expected answer
+				old, had := w.last[s.Id]
+				if !had {
+					break
+				}
+				bi, stale = old, true
 			}
 			bi.Pending = s.Pending
 			if s.Expires == "past" {
@@ -408,6 +418,11 @@ func vsReplay(idx int, ids []string, expiredIds []string, hist []vsStep) (status
 			}
 			bi.Properties["verif/n"] = n
 			opErr = w.s.Update(bi)
+			if stale {
+				opErr = nil
+			} else {
+				w.last[s.Id] = bi
+			}
 		case "delete":
 			opErr = w.s.Delete(w.sets[s.Id].whole.ID())
 		case "sweep":
